@@ -466,7 +466,11 @@ func keScenario(r *rand.Rand, kind string, exec func(op string) string, st *keSt
 		case x < 10:
 			m := anyMsg()
 			if r.Intn(4) > 0 {
-				if v, ok := lastOut[peer(cid)]; ok && peer(cid) < nc {
+				p := peer(cid)
+				if nc == 3 && (p >= nc || r.Intn(3) == 0) {
+					p = (cid + 1 + r.Intn(2)) % 3 // the third channel takes part: it answers rekeys and hellos of the other two
+				}
+				if v, ok := lastOut[p]; ok && p < nc {
 					m = v
 				}
 			}
@@ -943,6 +947,48 @@ func keOracle(r *rand.Rand, n int, tier string, infile string) (cases int, fails
 			}
 		}
 	}
+	// a rekey that is answered by somebody else: A is bound to B's key; A's next InitHello (rekey) is answered by M,
+	// who holds another key and signs correctly with it. A must stay with B: no data from M, nothing encrypted to M,
+	// the remote key unchanged (C05 key continuity; C02: every plaintext comes from the authenticated peer).
+	rekeyHijackCase := func() {
+		cases++
+		acceptAll := r.Intn(2) == 0
+		A := newChan(0, func(k int) bool { return acceptAll || k == 1 })
+		B := newChan(1, func(int) bool { return true })
+		M := newChan(3, func(int) bool { return true })
+		defer A.c.Close()
+		defer B.c.Close()
+		defer M.c.Close()
+		establish(A, B)
+		if keyIndex(A.c.RemoteKey()) != "1" {
+			return
+		}
+		A.sent, A.app = nil, nil
+		A.c.VerifOnRekey()
+		A.c.VerifOnHandshake()
+		pump(A, M, 3)
+		if trySend(M, []byte("from-M")) == nil {
+			pump(M, A, 1)
+		}
+		for _, p := range A.app {
+			if string(p) == "from-M" {
+				bad("C02 a channel bound to key 1 handed the application %q, sent by a party with key 3 that answered the channel's rekey InitHello (accept-all=%v)", p, acceptAll)
+				bad("C05 a channel bound to key 1 delivers data from key 3 after its rekey was answered by key 3 (accept-all=%v)", acceptAll)
+			}
+		}
+		if k := keyIndex(A.c.RemoteKey()); k != "1" {
+			bad("C05 the remote key of a channel bound to key 1 became %s when its rekey was answered by another party", k)
+		}
+		M.app = nil
+		if trySend(A, []byte("for-B-only")) == nil {
+			pump(A, M, 1)
+			for _, p := range M.app {
+				if string(p) == "for-B-only" {
+					bad("C05 a channel bound to key 1 encrypted application data to key 3 after its rekey was answered by key 3")
+				}
+			}
+		}
+	}
 	// restart while the first handshake is half open: B has only seen the first InitHello
 	halfOpenCase := func() {
 		cases++
@@ -1049,6 +1095,7 @@ func keOracle(r *rand.Rand, n int, tier string, infile string) (cases int, fails
 			lateRekeyCase()
 			overtakeCase()
 			liarCase()
+			rekeyHijackCase()
 		}
 	}
 	nk := 1
